@@ -775,25 +775,33 @@ pub(crate) fn validate_headers(image: &[u8]) -> Result<u32> {
 		return Err(Error::Insanity);
 	}
 
+	// Verify the signature and the optional header magic, they are at the same offsets for PE32 and PE32+
+	let magic_offset = dos.e_lfanew as usize + (mem::size_of::<IMAGE_NT_HEADERS>() - mem::size_of::<IMAGE_OPTIONAL_HEADER>());
+	if magic_offset + mem::size_of::<u16>() > image.len() {
+		return Err(Error::Bounds);
+	}
+	let signature = unsafe { *(image.as_ptr().offset(dos.e_lfanew as isize) as *const u32) };
+	let magic = unsafe { *(image.as_ptr().add(magic_offset) as *const u16) };
+	if signature != IMAGE_NT_HEADERS_SIGNATURE || !(magic == IMAGE_NT_OPTIONAL_HDR32_MAGIC || magic == IMAGE_NT_OPTIONAL_HDR64_MAGIC) {
+		return Err(Error::BadMagic);
+	}
+	// Give the caller a chance to retry with the correct parser
+	// Do this before looking at anything else as the NT headers of the other format have a different size
+	if magic != IMAGE_NT_OPTIONAL_HDR_MAGIC {
+		return Err(Error::PeMagic);
+	}
+
 	// Grab the NT headers
 	let nt_end = dos.e_lfanew as usize + mem::size_of::<IMAGE_NT_HEADERS>();
 	if nt_end > image.len() {
 		return Err(Error::Bounds);
 	}
 	let nt = unsafe { &*(image.as_ptr().offset(dos.e_lfanew as isize) as *const IMAGE_NT_HEADERS) };
-	// Verify the NT headers
-	if nt.Signature != IMAGE_NT_HEADERS_SIGNATURE || !(nt.OptionalHeader.Magic == IMAGE_NT_OPTIONAL_HDR32_MAGIC || nt.OptionalHeader.Magic == IMAGE_NT_OPTIONAL_HDR64_MAGIC) {
-		return Err(Error::BadMagic);
-	}
 	if nt.OptionalHeader.SizeOfHeaders as usize > image.len() {
 		return Err(Error::Bounds);
 	}
 	if nt.OptionalHeader.SizeOfHeaders > nt.OptionalHeader.SizeOfImage {
 		return Err(Error::Insanity);
-	}
-	// Give the caller a chance to retry with the correct parser
-	if nt.OptionalHeader.Magic != IMAGE_NT_OPTIONAL_HDR_MAGIC {
-		return Err(Error::PeMagic);
 	}
 
 	// Verify the data directory
